@@ -384,8 +384,15 @@ func c05R2(c *Ctx, r *Report) {
 		return
 	}
 	// buildIf: in the else-branch of `if stmt.Else != nil`
+	isLitIf := c.LookupFn(pkgHIRAn, "isLiteralTrue")
 	check("buildIf", "current", "when Else == nil", func(fn *Fn, call *ast.CallExpr, stack []ast.Node) bool {
 		conds, inElse := enclosingIfs(call, stack)
+		// `… else if isLiteralTrue(stmt.Cond) { no edge } else { addEdge }`: the body of `if true` is never skipped
+		if len(conds) == 2 && inElse[1] && isLitIf != nil {
+			if cl, ok := ast.Unparen(conds[1]).(*ast.CallExpr); ok && isCallTo(fn.Info(), cl, isLitIf.Obj) && len(cl.Args) == 1 && strings.HasSuffix(exprStr(cl.Args[0]), ".Cond") {
+				conds, inElse = conds[:1], inElse[:1]
+			}
+		}
 		if len(conds) != 1 {
 			return false
 		}
